@@ -6,12 +6,15 @@ from oracle_util import *  # noqa
 from protocol import from_real
 
 ID = "C16"
-LEAN_MODULE = None
+LEAN_MODULE = "SCoda.Props.C16"
 CLAUSES = [
-    ("a copy of a sequence, bar, track or composition equals its original", None),
-    ("no message object is shared between an original and its copy / split pieces / bars", None),
-    ("any later public operation on the derived object leaves the original's events unchanged in both views, views in agreement", None),
-    ("operations on the original leave the derived object unchanged", None),
+    ("a message-wise copy holds the same message values as its original (equals: C17.refl)", ["SCoda.C16.copy_derive", "SCoda.C16.copyAll_spec"]),
+    ("a fresh-allocating derivation shares no message with anything that existed; sharing (the unrepaired split, D13) is not a derivation",
+     ["SCoda.C16.derive_disjoint", "SCoda.C16.sharing_is_not_derivation"]),
+    ("frame: no history of own-writing operations on one side changes a message of the other side (both directions: the statement is symmetric in the two objects)",
+     ["SCoda.C16.frame", "SCoda.C16.independent", "SCoda.C16.editRel_ownStep", "SCoda.C16.editAbs_ownStep"]),
+    ("classification: every public operation of the real classes is own-writing, and copy/split/sequences_split_bars/Bar.copy/Track.copy/"
+     "Composition.copy allocate fresh messages (decided on the real objects by the id()/snapshot harness, not by a theorem)", None),
 ]
 RULE = ("originals (<=6 notes, 1-2 channels, signatures) x derivation routes (Sequence.copy, split, sequences_split_bars with "
         "either re-quantisation setting, Bar.copy, Track.copy, Composition.copy) x histories of <=8 public operations on either "
